@@ -1271,6 +1271,10 @@ fn main() {
     if signals > 0 {
         vworld::meter::start_signals(signals);
     }
+    if mode == "c18cap" {
+        // standard error is a full pipe that nobody drains: writing to it inside a call = hanging
+        vworld::meter::stderr_blocks(true);
+    }
     let mut v = match mode.as_str() {
         "sched" => mode_sched(&args),
         "stopenum" => mode_stopenum(&args),
